@@ -4,8 +4,8 @@
    Vocabulary (Conc/SockReaderSpec.v):  parked s = extdata s ++ ibuf s  (bytes in the caller's buffer awaiting the
    wake-up, then the protocol's buffer);  received os / accepted ls os = the bytes of all receives that returned /
    of all read events, read off the observations. *)
-From EN Require Import Lib.Bytes Conc.SockReader Conc.SockReaderSpec
-                       Proofs.C10_refute Proofs.C10_inv Proofs.C10_obs.
+From EN Require Import Lib.Bytes Conc.SockReader Conc.SockReaderSpec Conc.BlockRecv Frame.Framer Stream.Consumer
+                       Proofs.C10_refute Proofs.C10_inv Proofs.C10_obs Proofs.C10_queue Proofs.C10_blocking.
 
 (* F4 (defect of the unchanged tree): recv_into(8); read event "hello"; task.cancel(); next iteration; wake-up
    (CancelledError); read event " world"; recv(64) returns " world" -- "hello" is gone, no error is reported. *)
@@ -67,6 +67,60 @@ Print Assumptions error_is_sticky.
 Theorem error_fails_receives : forall s o e, lost_exc s = Some e -> call s o = (s, ORes (RError e)).
 Proof. exact error_fails_receives_proof. Qed.
 Print Assumptions error_fails_receives.
+
+(* "later receives deliver exactly the rest of the stream": from every reachable idle state with parked bytes and no
+   connection error, a receive of k > 0 bytes (either kind) returns exactly the first k parked bytes at its wake-up in
+   the next loop iteration -- together with no_loss, the next bytes of the delivered stream. *)
+Theorem later_receive_returns_next_bytes : forall ls k (into : bool),
+  let s := run_labels true ls in
+  tpc s = PIdle -> lost_exc s = None -> ibuf s <> [] -> k <> 0 ->
+  snd (exec true s [if into then LRecvInto k else LRecv k; LTurn; LWake])
+  = [ONone; ONone; ORes (RBytes (firstn k (ibuf s)))].
+Proof. exact later_receive_returns_next_bytes_fixed_proof. Qed.
+Print Assumptions later_receive_returns_next_bytes.
+
+Theorem later_receive_returns_next_bytes_race_free : forall ls k (into : bool),
+  race_free init ls ->
+  let s := run_labels false ls in
+  tpc s = PIdle -> lost_exc s = None -> ibuf s <> [] -> k <> 0 ->
+  snd (exec false s [if into then LRecvInto k else LRecv k; LTurn; LWake])
+  = [ONone; ONone; ORes (RBytes (firstn k (ibuf s)))].
+Proof. exact later_receive_returns_next_bytes_race_free_proof. Qed.
+Print Assumptions later_receive_returns_next_bytes_race_free.
+
+(* Blocking half (lowlevel/api_sync/endpoints/stream.py, Conc/BlockRecv.v).  For ANY consumer whose next(None) after a
+   StopIteration is a no-op StopIteration, any transport behaviour [evs] and any kind of timeout (TimeoutError from the
+   transport, or the short-read break with timeout 0): if a receive call ends with TimeoutError, then the events it
+   consumed are a prefix of the oracle, the end-of-stream latch is untouched, and every later call sees exactly what a
+   patient call (never timing out) would have seen had the consumed chunks still been in the transport: the result,
+   the consumer state and the remaining events are equal.  Nothing the transport delivered is lost or reordered. *)
+Theorem timeout_loses_nothing :
+  forall (C R : Type) (next : C -> option bytes -> C * option R) (bufsize : nat),
+  (forall c x c', next c x = (c', None) -> next c' None = (c', None)) ->
+  forall tz c evs c1 e1 evs1,
+    breceive next bufsize tz c false evs = (c1, e1, evs1, BTimedOut) ->
+    exists consumed,
+      evs = consumed ++ evs1 /\ e1 = false /\
+      breceive next bufsize false c false (patient (bdata_of consumed) ++ evs1)
+      = breceive next bufsize false c1 false evs1.
+Proof. exact (@timeout_loses_nothing_proof). Qed.
+Print Assumptions timeout_loses_nothing.
+
+(* ... unconditionally for the copying StreamDataConsumer (Stream/Consumer.cnext) over any framer *)
+Theorem timeout_loses_nothing_copying : forall P (F : framer P) bufsize tz c evs c1 e1 evs1,
+  breceive (cnext_opt F) bufsize tz c false evs = (c1, e1, evs1, BTimedOut) ->
+  exists consumed,
+    evs = consumed ++ evs1 /\ e1 = false /\
+    breceive (cnext_opt F) bufsize false c false (patient (bdata_of consumed) ++ evs1)
+    = breceive (cnext_opt F) bufsize false c1 false evs1.
+Proof. exact timeout_loses_nothing_copying_proof. Qed.
+Print Assumptions timeout_loses_nothing_copying.
+
+(* non-vacuity of the blocking theorem: a call that times out after consuming a chunk exists *)
+Example blocking_timeout_example :
+  breceive (fx_next 2) 4 false [] false [BData [1%N] false; BTimeout; BData [2%N] false]
+  = ([1%N], false, [BData [2%N] false], BTimedOut).
+Proof. reflexivity. Qed.
 
 (* non-vacuity: race-free sequences exist that contain recv_into, a cancellation and data *)
 Example race_free_example :
